@@ -48,7 +48,7 @@ from ..lib_C14 import (BASIN_TYPES, CORE, DCORBASE, FB, FDICT, H5BASE,
                        class_assign, classes_in, edge_guarded,
                        enclosing_conditions, fact_guard, files_mentioning,
                        fold, fold_basin_classes, method, self_attr_writes,
-                       single_assign, stmt_of)
+                       run_straight, single_assign, stmt_of)
 
 ASSUMPTIONS = [
     "NOT decided: termination as a wall-clock fact; availability checks of "
@@ -848,24 +848,36 @@ def r142(ctx, repo, sites):
                node=touch[0] if touch else init,
                key=f"{rel}::{nm}.__init__::constructor leaves basins alone")
 
-    # (d) BasinProxy forwards ignore_basins to the wrapped dataset
+    # (d) BasinProxy forwards ignore_basins to the wrapped dataset: decided
+    # by interpreting __getattr__ for the attribute name
     ga = repo.func(FB, "BasinProxy.__getattr__")
-    fwd = set()
-    for n in walk(ga):
-        if isinstance(n, ast.If) and isinstance(n.test, ast.Compare) \
-                and isinstance(n.test.ops[0], ast.In) and isinstance(
-                n.test.comparators[0], (ast.List, ast.Tuple, ast.Set)):
-            rets = [r for r in n.body if isinstance(r, ast.Return)]
-            if rets and isinstance(rets[0].value, ast.Call) and call_name(
-                    rets[0].value) == "getattr" and txt(
-                    rets[0].value.args[0]) == "self.ds":
-                fwd |= {const_str(x) for x in n.test.comparators[0].elts}
-    if not fwd:
-        raise AnalysisError("BasinProxy.__getattr__: forwarding list lost")
+    if len(ga.args.args) != 2:
+        raise AnalysisError("BasinProxy.__getattr__: signature changed")
+    item = ga.args.args[1].arg
+    consts = {}
+    for st in repo.tree(FB).body:
+        if isinstance(st, ast.Assign) and len(st.targets) == 1 \
+                and isinstance(st.targets[0], ast.Name):
+            try:
+                consts[st.targets[0].id] = Mini({}).ev(st.value)
+            except Unknown:
+                pass
     for nm, nt in (("ignore_basins", True), ("basins", False)):
-        ctx.ob("R14.2", nm in fwd,
+        try:
+            kind, val = run_straight(ga, {item: nm}, consts)
+        except Unknown as u:
+            raise AnalysisError(f"BasinProxy.__getattr__: cannot interpret "
+                                f"`{u}`")
+        ok = kind == "return" and isinstance(val, ast.Call) and call_name(
+            val) == "getattr" and len(val.args) >= 2 and txt(
+            val.args[0]) == "self.ds" and is_name(val.args[1], item)
+        if kind == "return" and not ok and not (
+                isinstance(val, ast.Call) and call_name(val) == "getattr"):
+            raise AnalysisError("BasinProxy.__getattr__: forwarding idiom "
+                                f"`{short(val, 50)}` not recognised")
+        ctx.ob("R14.2", ok,
                f"BasinProxy forwards `{nm}` to the wrapped dataset"
-               if nm in fwd else
+               if ok else
                f"BasinProxy does not forward `{nm}`: the ignore list never "
                f"reaches the dataset of a mapped basin", node=ga,
                label=f"proxy forwards {nm}", nontrivial=nt)
@@ -2005,6 +2017,28 @@ def _twin_waiver_first(src):
     return src
 
 
+def _twin_forward_constant(src):
+    """forwarding list as module constant, early raise"""
+    a = src.index("    def __getattr__(self, item):\n        if item in [\n"
+                  "            \"basins\",\n")
+    b = src.index("    def __getitem__(self, feat):\n"
+                  "        if feat not in self._features:")
+    src = src[:a] + (
+        "    def __getattr__(self, item):\n"
+        "        if item not in BASIN_PROXY_DS_ATTRIBUTES:\n"
+        "            raise AttributeError(\n"
+        "                f\"BasinProxy does not implement {item}\")\n"
+        "        return getattr(self.ds, item)\n\n") + src[b:]
+    return src.replace(
+        "class BasinProxy:\n",
+        "BASIN_PROXY_DS_ATTRIBUTES = (\n"
+        "    \"basins\", \"close\", \"features\", \"features_ancillary\",\n"
+        "    \"features_basin\", \"features_innate\", \"features_loaded\",\n"
+        "    \"features_local\", \"features_scalar\",\n"
+        "    \"get_measurement_identifier\", \"ignore_basins\",\n"
+        ")\n\n\nclass BasinProxy:\n", 1)
+
+
 def _twin_key_loop(src):
     """explicit loop + extend instead of comprehension + `+=`, renamed"""
     src = src.replace(
@@ -2037,6 +2071,15 @@ TWINS = [
       "        self._ds.ignore_basins(seen_basin_keys)\n"
       "        return self._ds\n")),
     ("ignore keys collected by a loop and extend()", CORE, _twin_key_loop),
+    ("proxy forwarding list as module constant, early raise", FB,
+     _twin_forward_constant),
+    ("writer identifier test rewritten with De Morgan", WRITER,
+     ("                        if not (ds_id == cur_id\n"
+      "                                or (basin_map is not None\n"
+      "                                    and cur_id.startswith(ds_id))):\n",
+      "                        if ds_id != cur_id and (\n"
+      "                                basin_map is None\n"
+      "                                or not cur_id.startswith(ds_id)):\n")),
     ("locals for the format and type of the definition", CORE,
      _twin_entry_locals),
     ("local rename of the definition variable", CORE,
